@@ -184,10 +184,21 @@ class LedgerDevice:
         return True
 
     def on_open(self):
-        pass
+        if getattr(self, "_dash_pending", False):
+            self._dash_pending = False
+            self._dash_armed = True          # this connection finds the dashboard
 
     def on_close(self):
-        pass
+        # "dashboard_then": after leaving an application the device sits in the dashboard (which does
+        # not know CLA 0x80) for one connection only; when the host lets go of it, it is found in
+        # that mode next time (e.g. back in a locked bootloader because the signer could not start)
+        nxt = self.cfg.get("dashboard_then")
+        if nxt is not None and getattr(self, "_dash_armed", False) and \
+                self.mode not in (MODE_BOOTLOADER, MODE_SIGNER, MODE_UI_HEARTBEAT):
+            self._dash_armed = False
+            self.mode = nxt
+            self.pinbuf = bytearray(10)
+            self._reset_ops()
 
     def on_injected(self, apdu, sw):
         # the (real) firmware resets every multi-step operation on any error
@@ -263,6 +274,7 @@ class LedgerDevice:
         if delay is None:
             delay = ch.pick([0.2, 0.0, 0.9, 0.5], "exit.delay")
         self.mode = nxt
+        self._dash_pending = True
         self.away_until = self.clock.now + delay
         self.log.ev("dev", "leave", nxt, "%.2f" % delay)
         return None
